@@ -381,6 +381,37 @@ MOTIFS = [r'C/C=C\C', r'C/C=C/C', 'CC=C', 'CC(C)=C', 'CC(C)=CC',
           'CC(C)=C(C)C', r'C/C(C)=C\C']
 
 
+def stereo_alkenes():
+    """Every acyclic C=C with defined E/Z stereo over a small substituent
+    alphabet: di-, tri- and tetrasubstituted, both configurations, written
+    R1/C(R2)=C(/R3)R4 and R1/C(R2)=C(\\R3)R4 (R2, R4 possibly H).  The tri-
+    substituted ones are where a cis/trans correction depends on WHICH
+    geminal substituent is taken as the reference."""
+    pre = ['C', 'CC', 'CC(C)', 'CC(C)(C)', 'C=C', 'OC']
+    post = ['', 'C', 'CC', 'C(C)C', 'C(C)(C)C', 'C=C', 'CO']
+    out = []
+    seen = set()
+    for r1 in pre:
+        for r2 in post:
+            for r3 in pre:
+                for r4 in post:
+                    for d in ('/', '\\'):
+                        s = '%s/C%s=C(%s%s)%s' % (
+                            r1, '(%s)' % r2 if r2 else '', d, r3, r4)
+                        m = Chem.MolFromSmiles(s)
+                        if m is None:
+                            continue
+                        if not any(b.GetStereo() in (
+                                Chem.BondStereo.STEREOE, Chem.BondStereo.STEREOZ)
+                                for b in m.GetBonds()):
+                            continue
+                        c = Chem.MolToSmiles(m)
+                        if c not in seen:
+                            seen.add(c)
+                            out.append(c)
+    return out
+
+
 def pool(seed, n_random=60, n_ads=40, metal='Pt', nitrogen=False,
          max_heavy=10, n_joined=0):
     """Curated + random + adsorbate pool, canonical and de-duplicated."""
